@@ -145,7 +145,15 @@ func schemaContractDriver(raw json.RawMessage) *Out {
 	out := &Out{Key: c.ID}
 	files, sources, err := compileAST(b)
 	if err != nil {
-		return rejected(out, c.Focus, err, sources)
+		out = rejected(out, c.Focus, err, sources)
+		// acceptance in general is C07's; but when the construct under test IS a type reference (local, cross-file,
+		// imported by package or alias, proto<->j5s) of a valid program, a rejection is a reference that did not
+		// resolve - which C02 states directly
+		label := c.Focus[strings.LastIndex(c.Focus, "+")+1:]
+		if strings.HasPrefix(label, "ref-") || strings.HasPrefix(label, "option-ref-") {
+			out.V("C02|reference-unresolved|"+label, "valid program whose focus is the type reference %s is rejected: %s", label, out.Note)
+		}
+		return out
 	}
 	real := projectFiles(files)
 	out.Nontrivial = len(real.Fields)+len(real.Values)+len(real.Methods) > 0
